@@ -47,3 +47,8 @@ package utils
 //@   nopanic
 //@   ensures [member] result <==> exists k int :: 0 <= k && k < len(*slice) && (*slice)[k] == *value
 //@   loop 1 invariant [none] forall k int :: 0 <= k && k < iter ==> (*slice)[k] != *value
+
+// the seeded generator every bias and the bias-firing loop are wired with: a private source per call, values in [0,1)
+//@ func RandomBasedSeedValueGenerator$1
+//@   property C08 C17 C18 C02
+//@   ensures [unit_interval] 0.0 <= result && result < 1.0
